@@ -606,9 +606,9 @@ def mutate(rng, parser, doc):
         elif k == 10:                         # deep nesting: wrap
             d = rng.choice([19, 20, 21, 22, 64, 300, 999, 1000, 1001, 2000] + ([30000] if parser == "json" else [])) if parser in ("xml", "json") else rng.choice([20, 64, 300, 512])
             if parser == "xml":
-                nm = rng.choice([b"a", b"w", b"ab"]); b = bytearray((b"<" + nm + b">") * d + bytes(b) + (b"</" + nm + b">") * rng.choice([d, d, d - 1, 0]))
+                nm = rng.choice([b"a", b"w", b"ab"]); sib = rng.choice([b"", b"", b"<e/>", b"<s></s>"]); b = bytearray((b"<" + nm + b">" + sib) * d + bytes(b) + (b"</" + nm + b">") * rng.choice([d, d, d - 1, 0]))
             elif parser == "json":
-                o, c = rng.choice([(b"[", b"]"), (b'{"a":', b"}")]); b = bytearray(o * d + bytes(b) + c * rng.choice([d, d, d - 1, 0]))
+                o, c = rng.choice([(b"[", b"]"), (b'{"a":', b"}"), (b"[{},", b"]"), (b"[[],", b"]"), (b'{"a":{},"b":', b"}")]); b = bytearray(o * d + bytes(b) + c * rng.choice([d, d, d - 1, 0]))
             elif parser in ("cbor", "cbor_consume"):
                 b = bytearray(rng.choice(NEST_HEADS) * min(d, 512) + bytes(b))
             elif parser == "uri":
@@ -757,9 +757,50 @@ def prefix_cases(rng):
     return cases
 
 
+XML_DEPTHS = [0, 1, 2, 19, 20, 21, 50, 1000]
+FAR = 250000
+
+
+def depth_limit_cases(rng):
+    """every recursive parser at its nesting limit: limit-1, limit, limit+1, limit+10 and far beyond (250 000 levels), with the
+    plain shape and with 'limit evasion' shapes in which siblings (an empty element / {} / []) precede the nested child on every
+    level; XML with the default and with non-default max_depth and an all-descending callback program.  The verdict is known:
+    XML descends k levels iff k < max_depth (else AWS_ERROR_INVALID_XML), cJSON accepts iff the deepest nesting is <= 1000."""
+    ops = []
+    hxs = lambda b: hx(b)
+    for D in XML_DEPTHS:
+        L = D or 20
+        for k in sorted({L - 1, L, L + 1, L + 10, 3 * L + 7, FAR}):
+            if k < 1:
+                continue
+            want = "OK" if k < L else "ERR:AWS_ERROR_INVALID_XML"
+            dopt = " depth=%d" % D if D else ""
+            ops.append("pn xml %d %s - %s prog=d%s expectrc=%s" % (k, hxs(b"<a>"), hxs(b"</a>"), dopt, want))
+            ops.append("pn xml %d %s %s %s prog=ds%s expectrc=%s" % (k, hxs(b"<a><b></b>"), hxs(b"x"), hxs(b"</a>"), dopt, want))
+            ops.append("pn xml %d %s - %s prog=dss%s expectrc=%s" % (k, hxs(b"<n><e/><f k=\"1\"/>"), hxs(b"</n>"), dopt, want))
+    shapes = [(b"[", b"1", b"]", 0), (b"[{},", b"1", b"]", 1), (b"[[],", b"1", b"]", 1), (b'{"a":{},"b":', b"1", b"}", 1),
+              (b'{"a":[],"b":[{},', b"{}", b"]}", 1), (b'[1,"x",{},', b"[]", b"]", 1), (b'{"k":', b"{}", b"}", 1)]
+    for (o, m, c, extra) in shapes:
+        per = o.count(b"[") + o.count(b"{") - o.count(b"]") - o.count(b"}")      # levels opened per repetition
+        for k in (998, 999, 1000, 1001, 1500, FAR):
+            k2 = max(1, k // per)
+            deepest = k2 * per + extra
+            ops.append("pn json %d %s %s %s expectrc=%s" % (k2, hxs(o), hxs(m), hxs(c), "OK" if deepest <= 1000 else "NULL"))
+    # CBOR consume (F6 is the known finding: only depths far below its threshold here), siblings before the nested child
+    for head, tail in ((b"\x82\x00", b"\x00"), (b"\x83\x00\xa0", b"\x00"), (b"\x9f\x00", b"\x00"), (b"\xa2\x00\x00\x01", b"\x00")):
+        for k in (1, 64, 512, 4000):
+            closes = b"\xff" if head[0] == 0x9f else b""
+            ops.append("pn cbor_consume %d %s %s %s" % (k, hxs(head), hxs(tail), hxs(closes) if closes else "-"))
+    # the far-beyond documents go into cases of their own: if one of them crashes, the verdicts at the limit are still judged
+    far = [o for o in ops if o.split(" ")[2] == str(FAR) or int(o.split(" ")[2]) > 100000]
+    near = [o for o in ops if o not in far]
+    return ([Case(near[k:k + 60], {"streams": {"depth_limits": len(near[k:k + 60])}}) for k in range(0, len(near), 60)] +
+            [Case(far[k:k + 8], {"streams": {"depth_limits_far": len(far[k:k + 8])}}) for k in range(0, len(far), 8)])
+
+
 def gen_cases(rng, tier):
     # thorough: the first round only; extra_stages runs the remaining rounds (memory: hex text of a round ~ 0.3 GB)
-    return cbor_head_cases(rng) + prefix_cases(rng) + gen_inputs(rng, QUICK_TOTAL if tier == "quick" else THOROUGH_ROUND)
+    return depth_limit_cases(rng) + cbor_head_cases(rng) + prefix_cases(rng) + gen_inputs(rng, QUICK_TOTAL if tier == "quick" else THOROUGH_ROUND)
 
 
 # ------------------------------------------------------------------------------------------------ oracle
@@ -834,10 +875,17 @@ def _reference_errors(op, ls):
     """clauses checked against an independent reference: a parser that mis-frames its input (wrong element count, wrong
     parameter boundaries, wrong number) while staying in bounds"""
     t = op.split(" ")
-    if len(t) < 3 or t[0] != "p":
+    if len(t) < 3 or t[0] not in ("p", "pn"):
         return []
     parser = t[1]
-    if parser not in ("xml", "query", "u64", "cbor", "cbor_consume"):
+    want_rc = [x[9:] for x in t if x.startswith("expectrc=")]
+    if want_rc:
+        w = want_rc[0].replace(":", " ")
+        head = "P %s blk parse %s " % (parser, w)
+        if not any(l.startswith(head) or l.startswith(head.rstrip()) for l in ls):
+            return ["nesting limit: expected `%s`" % head.strip()]
+        return []
+    if t[0] != "p" or parser not in ("xml", "query", "u64", "cbor", "cbor_consume"):
         return []
     if parser == "xml":
         exp = [x for x in t[3:] if x.startswith("expect=")]
@@ -926,9 +974,14 @@ def distribution(cases, c_out):
             streams[k] = streams.get(k, 0) + v
         for op in c.ops:
             t = op.split(" ", 3)
-            if len(t) < 3 or t[0] != "p":
+            if len(t) < 3 or t[0] not in ("p", "pn"):
                 continue
             n_inputs += 1
+            if t[0] == "pn":
+                f = op.split(" ")
+                n = int(f[2]) * (sum(len(x) // 2 for x in (f[3], f[5]) if x != "-")) if len(f) >= 6 else 0
+                sizes[">65536" if n > 65536 else "4097-65536" if n > 4096 else "513-4096" if n > 512 else "65-512" if n > 64 else "1-64"] += 1
+                continue
             n = 0 if t[2] == "-" else len(t[2]) // 2
             if t[1] == "cbor_consume_nested":
                 n = int(t[2])
